@@ -18,6 +18,12 @@ iterates a Python `set`, reuses a module-level cache, or mutates an object durin
                  ambiguous on the second `xml()`
   last_saved     `${last-saved#q}` in defaults, calculations, labels and choice filters (the `__last-saved`
                  instance element is created by a static method: anything shared between surveys shows there)
+  lang_codes     translation languages `Name (code)` whose codes sit late in the IANA subtag files (tables that are
+                 loaded lazily on first use), plus a few invalid ones
+  plain_rows     rows that use only plain column names (type/name/label/hint/default + the deprecated `disabled`),
+                 an external_choices sheet headed `list name`: what xls2json edits in place must be a copy
+  nested_cells   dict input whose cells are already grouped (`control: {jr:count: …}`, `bind: {…}`): nested values
+                 are shared with the caller unless copied
   type_sweep     one question of every type of the type table (all spellings), selects included
   param_sweep    every parameter family (range, text rows, image, audio/background-audio quality, geo accuracy,
                  select randomize/seed, select-from-file value/label, audit) with every subset of its parameters
@@ -40,7 +46,8 @@ LANG_POOL = ["en", "fr", "de", "sw", "English (en)", "French (fr)", "es", "pt"]
 FEATURES = [
     "sparse_itext", "pulldata", "or_other", "instance_label", "external", "external_nohdr", "search",
     "search_mixed", "dup_id", "entities", "missing_header", "dyn_default", "namespaces",
-    "dup_names", "type_sweep", "param_sweep", "last_saved", "plain",
+    "dup_names", "type_sweep", "param_sweep", "last_saved", "lang_codes",
+    "plain_rows", "nested_cells", "plain",
 ]
 
 
@@ -363,6 +370,73 @@ def add_last_saved(rng, form, langs):
         form["survey"].append(row)
 
 
+_TAIL_CODES = {}
+
+
+def tail_codes():
+    """valid subtags from the last third of each IANA file (file order), read from the repo under test"""
+    if not _TAIL_CODES:
+        import impl  # noqa: F401
+        from pyxform.validators.pyxform.iana_subtags import validation
+
+        for fn in ("iana_subtags_2_characters.txt", "iana_subtags_3_or_more_characters.txt"):
+            lines = [ln.strip() for ln in open(validation.HERE / fn, encoding="utf-8") if ln.strip()]
+            _TAIL_CODES[fn] = lines[len(lines) * 2 // 3:]
+    return _TAIL_CODES
+
+
+def make_lang_codes(rng, form):
+    """Replace the form by a small translated one whose languages carry late-sorting codes."""
+    tc = tail_codes()
+    codes = rng.sample(tc["iana_subtags_3_or_more_characters.txt"], k=rng.randint(2, 4)) + \
+        rng.sample(tc["iana_subtags_2_characters.txt"], k=rng.randint(0, 1))
+    if rng.random() < 0.3:
+        codes.append("qqqq")                      # not a subtag: the warning is expected for this one
+    langs = [f"Lang{i} ({c})" for i, c in enumerate(codes)]
+    form.clear()
+    form["survey"] = [{"type": "text", "name": f"lc{i}", **_lab(langs, f"Q{i}")} for i in range(rng.randint(1, 3))]
+    return langs
+
+
+def make_plain_rows(rng, form):
+    """Only plain column names; `disabled`; external_choices headed `list name`."""
+    form.clear()
+    rows = []
+    for i in range(rng.randint(3, 7)):
+        r = {"type": rng.choice(["text", "integer", "note", "date"]), "name": f"pr{i}", "label": f"Plain {i}"}
+        if rng.random() < 0.4:
+            r["hint"] = "h"
+        if rng.random() < 0.3 and r["type"] == "text":
+            r["default"] = "d"
+        if rng.random() < 0.5:
+            r["disabled"] = rng.choice(["yes", "no", "true", "false"])
+        rows.append(r)
+    if not any(r.get("disabled") in ("yes", "true") for r in rows):
+        rows[0]["disabled"] = "yes"
+    if all(r.get("disabled") in ("yes", "true") for r in rows):
+        rows[-1].pop("disabled")
+    form["survey"] = rows
+    if rng.random() < 0.6:
+        form["survey"].append({"type": "text", "name": "pr_state", "label": "State"})
+        form["survey"].append({"type": "select_one_external pcities", "name": "pr_city", "label": "City", "choice_filter": "state=${pr_state}"})
+        form["external_choices"] = [{"list name": "pcities", "name": f"c{i}", "label": f"C{i}", "state": "s"} for i in range(rng.randint(1, 3))]
+        form["choices"] = [{"list_name": "dummy", "name": "d", "label": "D"}]
+
+
+def add_nested_cells(rng, form):
+    """Pre-grouped cells, as a caller building the dict by hand (or from JSON) may pass them."""
+    form["survey"].insert(0, {"type": "integer", "name": "nc_n", "label": "N"})
+    for i in range(rng.randint(1, 2)):
+        form["survey"].append({"type": "text", "name": f"nc_q{i}", "label": f"NQ{i}",
+                               "bind": {"relevant": "${nc_n} > 0", "required": "yes"},
+                               "control": {"appearance": "multiline"}, "instance": {"tag": "v"}})
+    if form.get("_nested_count", True):
+        expr = rng.choice(["${nc_n} + 1", "2 + 1", "${nc_n}"])
+        form["survey"] += [{"type": "begin repeat", "name": "nc_rep", "label": "R", "control": {"jr:count": expr}},
+                           {"type": "text", "name": "nc_in", "label": "In"}, {"type": "end repeat"}]
+    form.pop("_nested_count", None)
+
+
 def add_dup_id(rng, form):
     st = (form.get("settings") or [{}])[0]
     st["id_string"] = rng.choice(["one", "my_form"])
@@ -412,7 +486,10 @@ def gen_c14_form(rng: random.Random, feature: str | None = None, big=False, nl: 
         nl = rng.choice([0, 2, 2, 3]) if not ({"sparse_itext"} & set(feats)) else rng.choice([2, 3, 4])
     langs = rng.sample(LANG_POOL, k=nl)
     form = base_form(rng, langs, big=big)
-    feats = sorted(feats, key=lambda f: f == "missing_header")  # removes columns: last
+    # families that replace the form come first, the one that removes columns last
+    feats = sorted(feats, key=lambda f: (f not in ("lang_codes", "plain_rows"), f == "missing_header"))
+    if "lang_codes" in feats and "plain_rows" in feats:
+        feats.remove("plain_rows")
     for f in feats:
         if f == "sparse_itext":
             add_sparse_itext(rng, form, langs)
@@ -436,6 +513,12 @@ def gen_c14_form(rng: random.Random, feature: str | None = None, big=False, nl: 
             add_dyn_default(rng, form, langs)
         elif f == "namespaces":
             add_namespaces(rng, form)
+        elif f == "lang_codes":
+            make_lang_codes(rng, form)
+        elif f == "plain_rows":
+            make_plain_rows(rng, form)
+        elif f == "nested_cells":
+            add_nested_cells(rng, form)
         elif f == "last_saved":
             add_last_saved(rng, form, langs)
         elif f == "param_sweep":
